@@ -174,6 +174,7 @@ class CSSRuleRules(CSSRule):
 
         for rule in cssRules:
             rule._parentRule = self
+            rule._parent = self
             rule._parentStyleSheet = None
 
         self._cssRules = cssRules
@@ -216,6 +217,7 @@ class CSSRuleRules(CSSRule):
         try:
             # detach
             self._cssRules[index]._parentRule = None
+            self._cssRules[index]._parent = None
             del self._cssRules[index]
 
         except IndexError:
@@ -266,6 +268,7 @@ class CSSRuleRules(CSSRule):
     def _finishInsertRule(self, rule, index):
         "add `rule` at `index`"
         rule._parentRule = self
+        rule._parent = self
         rule._parentStyleSheet = None
         self._cssRules.insert(index, rule)
         return index
